@@ -873,11 +873,16 @@ class VM:
                 )
                 js_func._compiled = compiled_func
 
-                # Create prototype object for the function
-                # In JavaScript, every function has a prototype property
-                prototype = JSObject()
-                prototype.set("constructor", js_func)
-                js_func._prototype = prototype
+                if compiled_func.is_arrow:
+                    # An arrow function has no `this` of its own: it keeps the
+                    # one of the code that creates it (and is no constructor)
+                    js_func._lexical_this = frame.this_value
+                else:
+                    # Create prototype object for the function
+                    # In JavaScript, every function has a prototype property
+                    prototype = JSObject()
+                    prototype.set("constructor", js_func)
+                    js_func._prototype = prototype
 
                 # Capture closure cells for free variables
                 if compiled_func.free_vars:
@@ -2644,6 +2649,8 @@ class VM:
             args = list(func._bound_args) + list(args)
         if hasattr(func, "_original_func"):
             func = func._original_func
+        if hasattr(func, "_lexical_this"):
+            this_val = func._lexical_this  # arrow function: call form and bind are ignored
 
         compiled = getattr(func, "_compiled", None)
         if compiled is None:
@@ -2710,6 +2717,8 @@ class VM:
         constructor = self.stack.pop()
 
         if isinstance(constructor, JSFunction):
+            if hasattr(constructor, "_lexical_this"):
+                raise JSTypeError("An arrow function is not a constructor")
             # Create new object
             obj = JSObject()
             # Set prototype from constructor's prototype property
